@@ -87,7 +87,11 @@ impl TcpStream {
 
             let syn = Protocol::Tcp(Segment::Syn(Syn { ack }));
             if !is_same(pair.local, pair.remote) {
-                world.send_message(pair.local, pair.remote, syn)?;
+                if let Err(e) = world.send_message(pair.local, pair.remote, syn) {
+                    // Nothing was sent: release the half registered above.
+                    world.current_host_mut().tcp.reset_stream(pair);
+                    return Err(e);
+                }
             } else {
                 send_loopback(pair.local, pair.remote, syn);
             };
@@ -95,9 +99,17 @@ impl TcpStream {
             Ok::<_, Error>((pair, rx, bidi))
         })?;
 
+        // Until the handshake completes the registered half (and its
+        // ephemeral port) is owned by this future: release it when the
+        // connect is refused and when the future is dropped while pending
+        // (timeout, select!, host crash).
+        let mut pending = PendingConnect { pair, armed: true };
+
         syn_ack.await.map_err(|_| {
             io::Error::new(io::ErrorKind::ConnectionRefused, pair.remote.to_string())
         })?;
+
+        pending.armed = false;
 
         tracing::trace!(target: TRACING_TARGET, src = ?pair.remote, dst = ?pair.local, protocol = %"TCP SYN-ACK", "Recv");
 
@@ -191,6 +203,26 @@ impl TcpStream {
     /// available.
     pub fn poll_peek(&mut self, cx: &mut Context<'_>, buf: &mut ReadBuf) -> Poll<Result<usize>> {
         self.read_half.poll_peek(cx, buf)
+    }
+}
+
+/// Owns the client half registered by [`TcpStream::connect`] while the
+/// handshake is pending.
+struct PendingConnect {
+    pair: SocketPair,
+    armed: bool,
+}
+
+impl Drop for PendingConnect {
+    fn drop(&mut self) {
+        if !self.armed {
+            return;
+        }
+        World::current_if_set(|world| {
+            if world.current.is_some() {
+                world.current_host_mut().tcp.reset_stream(self.pair);
+            }
+        })
     }
 }
 
